@@ -15,6 +15,7 @@ obtained by number / by hash at earlier steps are kept ("held readers") and must
 for their own block while later blocks are stored.
 """
 import copy
+import glob
 import json
 import os
 import re
@@ -29,6 +30,15 @@ def h4_fixed():
     if os.environ.get("VERIF_FIX_H4") in ("0", "1"):
         return os.environ["VERIF_FIX_H4"] == "1"
     return any(k["key"] == H4_KEY and k["status"] == "fixed" for k in vlib.load_known("C04"))
+
+
+RACE_KEY = "hist-read-concurrent:legacy:"
+
+
+def race_fixed():
+    """TRUE once every listed finding about the legacy reader's two live reads is marked fixed."""
+    ks = [k for k in vlib.load_known("C03") if k["key"].startswith(RACE_KEY)]
+    return bool(ks) and all(k["status"] == "fixed" for k in ks)
 
 
 def sim_cfg(name, fix):
@@ -46,6 +56,35 @@ def behaviours(ctx, cfg, runs, depth, fix, base):
         for b in bs:
             out.append({"seed": ctx.seed * 100000 + len(out) + base * 1000, "steps": b})
     return out
+
+
+def run_engine_keep(ctx, binary, test, payload, timeout):
+    """ctx.run_engine, but a hang of the real code AFTER the engine recorded a divergence (it rewrites
+    its result file at every divergence) still reports that divergence instead of a bare timeout."""
+    try:
+        return ctx.run_engine(binary, test, payload, timeout=timeout)
+    except vlib.Broken as e:
+        if "timed out" not in str(e):
+            raise
+        outs = sorted(glob.glob(os.path.join(ctx.scratch, "out.*.json")), key=os.path.getmtime)
+        for p in reversed(outs):
+            try:
+                with open(p) as f:
+                    res = json.load(f)
+            except Exception:
+                continue
+            if res.get("divergences"):
+                vlib.log("engine %s timed out after recording %d divergence(s); reporting them" % (test, len(res["divergences"])))
+                return res
+        raise
+
+
+def note_unreproduced(ctx):
+    """A finding listed as `known` that this run did not hit is worth a line, not a verdict."""
+    hit = [h["key"] for h in ctx.known_hits]
+    for k in ctx.known:
+        if k["status"] == "known" and k["key"] not in hit:
+            print("NOTE: property=%s known finding [%s] did not reproduce in this run" % (ctx.prop, k["key"]), flush=True)
 
 
 def selftest(ctx, binary, test, bs, corrupt):
@@ -86,6 +125,14 @@ def run(ctx):
     ctx.tlc_check("chain", "MCStateHistory.tla", "StateHistory_quick.cfg", timeout=900)
     ctx.tlc_check("chain", "MCStateHistory.tla", "StateHistory_sys_quick.cfg", timeout=900)
     ctx.tlc_check("chain", "MCStateHistory.tla", "StateHistory_casm_quick.cfg", timeout=900)
+    # reads that run while the writer stores / reverts: the repaired reader (two reads on one snapshot)
+    # is correct under every interleaving; the legacy reader as coded is not (known finding RACE_KEY)
+    ctx.tlc_check("chain", "MCStateHistory.tla", "StateHistory_race_fixed.cfg", timeout=900)
+    if not race_fixed():
+        r = ctx.tlc_check("chain", "MCStateHistory.tla", "StateHistory_race.cfg", timeout=900, expect_violation=True,
+                          label="legacy two-read history reader as coded (violation expected)")
+        if r["violated"] != "SplitReadOK":
+            raise vlib.Broken("StateHistory_race.cfg should violate SplitReadOK, got %s" % r["violated"])
     if thorough:
         r = ctx.tlc_check("chain", "MCStateHistory.tla", "StateHistory_thorough.cfg", timeout=3000, coverage=True)
         vlib.require_actions_covered(r)
@@ -95,9 +142,18 @@ def run(ctx):
 
     fix = h4_fixed()
     bs = behaviours(ctx, "StateHistory_sim.cfg", 10 if thorough else 2, 17 * (150 if thorough else 70), fix, 0)
-    selftest(ctx, binary, "TestHistReplay", bs, corrupt_truth)
-    res = ctx.run_engine(binary, "TestHistReplay", {"behaviours": bs}, timeout=3000)
+    res = run_engine_keep(ctx, binary, "TestHistReplay", {"behaviours": bs}, timeout=3000)
     ctx.absorb(res, "statehist", "TestHistReplay")
+    # concurrent round: readers of the retained blocks during Store ; RevertHead cycles
+    nconc = 24 if thorough else 8
+    cres = run_engine_keep(ctx, binary, "TestHistConcurrent",
+                           {"behaviours": bs[:nconc], "rounds": 120 if thorough else 40, "readers": 4, "mode": "reads"}, timeout=1500)
+    ctx.absorb(cres, "statehist", "TestHistConcurrent")
+    ctx.coverage["concurrent_rounds"] = cres.get("replayed", 0)
+    # the binding self-test comes last: it can only turn a clean run into Broken, never hide a violation
+    if not ctx.violations:
+        selftest(ctx, binary, "TestHistReplay", bs, corrupt_truth)
+    note_unreproduced(ctx)
     ctx.coverage["behaviours_generated"] = len(bs)
     ctx.coverage["steps_replayed"] = res.get("steps", 0)
     ctx.coverage["model_fix_h4"] = fix
@@ -106,6 +162,8 @@ def run(ctx):
         "system contracts 0x1/0x2 never receive a zero write (SysZeroWrites = FALSE): they hold block hashes and counters",
         "a class is declared at most once per chain and every class definition a block delivers is listed in its declared classes",
         "no pruning (retention floor absent): every block <= head is retained",
+        "the node under test runs on a store that enforces the buffer-lending contract of db.KeyValueReader (lent values are scribbled after the callback / iterator move)",
+        "concurrent round: a state reader is used by one goroutine (one request); readers only ask about blocks that stay retained during the round",
         "a held reader is checked as long as its block is on the chain; after a RevertHead that removes its block, or a restart, it is dropped (closed)",
     ]
     return ctx.finish(
